@@ -12,6 +12,7 @@ OBLIGATIONS = [
     "Pkgcore.C07.cache_lookup_sound",
     "Pkgcore.C07.cache_hit_complete",
     "Pkgcore.C07.caching_repo_sound",
+    "Pkgcore.C07.builder_hash_history_independent",
 ]
 TRUSTED = [
     "CPython: hash of a tuple is a function of its members' hashes in order, hash of a frozenset a function of the set of members' hashes, "
@@ -37,7 +38,8 @@ RULE = ("pairs of restrictions built independently through the public constructo
         "atoms and DepSets; the second member is a rebuilt copy, an equal-looking variant (negate moved between wrapper and value, converse operator "
         "under negate, ~ with/without negate, revision None/''/'0'/'00'/'1'/'01', reordered or duplicated USE / set members, ! vs !!, case "
         "variants, hashed vs unhashed, if_missing flipped, DepSet permuted/duplicated, key/tag/ignore_missing changed) or a one-field mutation, "
-        "applied at a random depth.  Each pair is compared with ==/!=/hash and matched against a universe of its domain (strings, string sets, "
+        "applied at a random depth; PackageRestrictionMulti over several attribute tuples; boolean nodes assembled step by step (finalize=False, "
+        "add_restriction, finalize, with hash / dict / set / parent-node uses in between) against the same tree built in one go.  Each pair is compared with ==/!=/hash and matched against a universe of its domain (strings, string sets, "
         "(iuse, use) pairs, 40 packages).  non-trivial = the two objects are distinct and were built from different descriptions or hash states")
 
 
@@ -138,7 +140,10 @@ def g_pkg(rng, depth):
         if kind == "keyed":
             d["key"], d["tag"] = rng.choice(["k1", "k2", None]), rng.choice([None, "t"])
         return d
-    k = rng.choice(["pr", "pr", "pr", "prs", "dep", "vm", "vm", "staticuse", "usedefault", "cond", "atom", "atom", "negate", "always", "depset"])
+    k = rng.choice(["pr", "pr", "pr", "prs", "prm", "prm", "dep", "vm", "vm", "staticuse", "usedefault", "cond", "atom", "atom", "negate", "always",
+                    "depset"])
+    if k == "prm":
+        return g_prm(rng)
     if k == "pr":
         return {"k": "pr", "attr": rng.choice(STR_ATTRS), "r": g_value(rng, "str", depth), "n": rng.random() < 0.3, "im": rng.random() < 0.8}
     if k == "prs":
@@ -162,6 +167,16 @@ def g_pkg(rng, depth):
     if k == "always":
         return {"k": k, "t": "package", "b": rng.random() < 0.5}
     return {"k": "depset", "s": rng.choice(DEPSETS)}
+
+
+MULTI_ATTRS = [["iuse_stripped", "use"], ["iuse_effective", "use"], ["use", "iuse_stripped"], ["use", "use"], ["iuse_effective", "iuse_stripped"],
+               ["iuse_stripped", "iuse_effective"]]
+
+
+def g_prm(rng):
+    """PackageRestrictionMulti over some attribute tuple (UseDepDefault is the one atoms build)"""
+    return {"k": "prm", "attrs": rng.choice(MULTI_ATTRS), "n": rng.random() < 0.3,
+            "r": {"k": "usedef", "m": rng.random() < 0.5, "vals": rng.sample(FLAGS, rng.choice([1, 2])), "n": rng.random() < 0.4}}
 
 
 def g_top(rng):
@@ -230,6 +245,13 @@ def variant(rng, d):
             node["rev"] = rng.choice(REV_ALT[node["rev"]])
         else:
             node["ver"] = rng.choice(VERS)
+    elif k == "prm":
+        c = rng.choice(["attrs", "attrs", "attrs", "n"])
+        tag = "prm_" + c
+        if c == "attrs":
+            node["attrs"] = rng.choice([a for a in MULTI_ATTRS if a != node["attrs"]])
+        else:
+            node["n"] = not node["n"]
     elif k == "pr":
         c = rng.choice(["move_negate", "move_negate", "im", "attr", "n"])
         tag = "pr_" + c
@@ -373,6 +395,14 @@ CORPUS = [
      {"k": "strconv", "r": {"k": "exact", "s": "1", "cs": True, "n": False, "hf": False}, "u": True}),
     ("pair", {"k": "usedef", "m": True, "vals": ["x"], "n": False}, {"k": "usedef", "m": False, "vals": ["x"], "n": False}),
     ("pkg", {"k": "usedefault", "m": True, "false": [], "true": ["x"]}, {"k": "usedefault", "m": False, "false": [], "true": ["x"]}),
+    ("pkg", {"k": "prm", "attrs": ["iuse_stripped", "use"], "n": False, "r": {"k": "usedef", "m": True, "vals": ["x"], "n": False}},
+     {"k": "prm", "attrs": ["iuse_effective", "use"], "n": False, "r": {"k": "usedef", "m": True, "vals": ["x"], "n": False}}),
+    ("pkg", {"k": "prm", "attrs": ["iuse_stripped", "use"], "n": False, "r": {"k": "usedef", "m": False, "vals": ["y"], "n": True}},
+     {"k": "prm", "attrs": ["use", "iuse_stripped"], "n": False, "r": {"k": "usedef", "m": False, "vals": ["y"], "n": True}}),
+    ("pkg", {"k": "prm", "attrs": ["iuse_stripped", "use"], "n": False, "r": {"k": "usedef", "m": True, "vals": ["x"], "n": False}},
+     {"k": "usedefault", "m": True, "false": [], "true": ["x"]}),
+    ("pkg", {"k": "prm", "attrs": ["use"], "n": False, "r": {"k": "usedef", "m": True, "vals": ["x"], "n": False}},
+     {"k": "pr", "attr": "use", "r": {"k": "usedef", "m": True, "vals": ["x"], "n": False}, "n": False, "im": True}),
     ("pkg", {"k": "atom", "s": "!!a/b", "nv": False}, {"k": "atom", "s": "!a/b", "nv": False}),
     ("pkg", {"k": "atom", "s": "a/b[x,y]", "nv": False}, {"k": "atom", "s": "a/b[y,x]", "nv": False}),
     ("pkg", {"k": "atom", "s": "a/b[x(+)]", "nv": False}, {"k": "atom", "s": "a/b[x(-)]", "nv": False}),
@@ -473,6 +503,8 @@ def run(ctx):
             o = restriction.Negate(build(d["r"]))
         elif k == "pr":
             o = packages.PackageRestriction(d["attr"], build(d["r"]), negate=d["n"], ignore_missing=d["im"], **K)
+        elif k == "prm":
+            o = packages.PackageRestrictionMulti(tuple(d["attrs"]), build(d["r"]), negate=d["n"], **K)
         elif k == "dep":
             o = getattr(restricts, d["cls"])(d["s"], negate=d["n"], **K)
         elif k == "staticuse":
@@ -550,8 +582,15 @@ def run(ctx):
         return {"c": "obj", "id": oid(o)}
 
     # ---------------------------------------------------------------- universes
+    EFF = {}
+
+    class EffPkg(FakePkg):
+        """FakePkg whose iuse_effective (profile-implicit flags included) can differ from iuse_stripped"""
+        __slots__ = ()
+        iuse_effective = property(lambda self: EFF.get(id(self), frozenset(self.iuse_stripped)))
+
     def mkpkg(cpv, slot="0", subslot=None, use=(), iuse=(), repo="repo"):
-        return FakePkg(cpv, slot=slot, subslot=subslot, use=use, iuse=iuse, repo=FakeRepo(repo_id=repo))
+        return EffPkg(cpv, slot=slot, subslot=subslot, use=use, iuse=iuse, repo=FakeRepo(repo_id=repo))
 
     pkgs = []
     for cpv in ("a/b-1.0", "a/b-1.0-r0", "a/b-1.0-r1", "a/b-1.00", "a/b-0.9", "a/b-2", "a/b-1.0_rc1", "a/b-1.0a", "a/b-1", "a/b-1.0-r2",
@@ -560,6 +599,10 @@ def run(ctx):
                                                ("0", "0", ("x", "y"), ("y",), "repo")):
             pkgs.append(mkpkg(cpv, slot, subslot, use, iuse, repo))
     pkgs = pkgs[:42]
+    # iuse_effective (the profile's implicit flags included) differs from iuse_stripped for some of them
+    for i, p in enumerate(pkgs):
+        eff = set(p.iuse_stripped) | ({"x"} if i % 3 == 0 else set()) | ({"y", "z"} if i % 5 == 1 else set())
+        EFF[id(p)] = frozenset(eff)
     UNIV = {
         "str": ["app", "dev", "", "a", "App", "x", "xy", "foo", "bar", "1", "0", "APP", "apple", "Foo", "rebar"],
         "strs": [[], ["x"], ["y"], ["x", "y"], ["x", "y", "z"], ["z"], ["a"]],
@@ -578,6 +621,7 @@ def run(ctx):
         fields = [["category", {"v": "str", "s": p.category}], ["package", {"v": "str", "s": p.package}], ["fullver", {"v": "str", "s": p.fullver}],
                   ["slot", {"v": "str", "s": p.slot}], ["subslot", {"v": "str", "s": p.subslot}],
                   ["use", {"v": "strs", "xs": sorted(p.use)}], ["iuse_stripped", {"v": "strs", "xs": sorted(p.iuse_stripped)}],
+                  ["iuse_effective", {"v": "strs", "xs": sorted(p.iuse_effective)}],
                   ["repo", {"v": "pkg", "fields": [["repo_id", {"v": "str", "s": p.repo.repo_id}]], "ver": None}]]
         return {"v": "pkg", "fields": fields, "ver": {"ver": lex_ver(p.version), "rev": p.revision.data}}
 
@@ -607,7 +651,9 @@ def run(ctx):
             ctx.note(f"construction raised {type(e).__name__}: {str(e)[:80]} (case skipped)")
             ctx.count("construction_failed")
             return
-        case = {"dom": dom, "a": da, "b": db, "variant": tag}
+        stage_objs({"dom": dom, "a": da, "b": db, "variant": tag}, dom, a, b)
+
+    def stage_objs(case, dom, a, b):
         ma, mb = to_model(a), to_model(b)   # before anything hashes them: the `_hash` state is part of the model
         rec = {"ma": ma, "mb": mb}
         try:
@@ -628,24 +674,146 @@ def run(ctx):
             rec["eq_after_hash"] = bool(a == b)
         except Exception:
             rec["eq_after_hash"] = None
+        if rec["eq_after_hash"] and rec["ha"] is not None and a is not b:
+            # equal keys must be one key for dicts and sets (what restriction keyed caches rely on)
+            if {a: "x"}.get(b) != "x" or {b: "x"}.get(a) != "x":
+                ctx.violation(case, "a == b but one is not found under the other's key in a dict")
+            if len({a, b}) != 1:
+                ctx.violation(case, "a == b but they are two members of a set")
         rec["same_obj"] = a is b
         pend.append((case, rec, a, b))
+
+    # ---- construction histories of boolean nodes: finalize=False, add_restriction, finalize, hashed in between
+    def gen_history(rng):
+        dom = rng.choice(["pkg", "pkg", "pkg", "str", "strs"])
+        leaf = (lambda: g_pkg(rng, 0)) if dom == "pkg" else (lambda: g_value(rng, dom, 0))
+        kinds = ["and", "or", "or", "one", "amo"] + (["keyed"] if dom == "pkg" else [])
+        ops = []
+        for _ in range(rng.choice([1, 2, 3, 4, 5])):
+            r = rng.random()
+            if r < 0.45:
+                ops.append({"op": rng.choice(["hash", "dict", "set", "parent"])})
+            elif r < 0.87:
+                ops.append({"op": "add", "rs": [leaf() for _ in range(rng.choice([0, 1, 1, 1, 2]))]})
+            else:
+                ops.append({"op": "finalize"})
+        ops.append({"op": "finalize"})
+        for _ in range(rng.choice([0, 0, 1, 2])):
+            ops.append(rng.choice([{"op": "hash"}, {"op": "add", "rs": [leaf()]}, {"op": "finalize"}, {"op": "set"}]))
+        return {"dom": dom, "kind": rng.choice(kinds), "n": rng.random() < 0.3, "init": [leaf() for _ in range(rng.choice([0, 1, 1, 2]))],
+                "ops": ops}
+
+    hist_pend = []
+
+    def stage_history(h, tag):
+        dom = h["dom"]
+        cls = VCLS[h["kind"]]
+        kw = dict(K, negate=h["n"], finalize=False)
+        if h["kind"] != "keyed":
+            kw["node_type"] = "package" if dom == "pkg" else "values"
+        case = {"history": h, "variant": tag}
+        try:
+            children = [build(d) for d in h["init"]]
+            node = cls(*children, **kw)
+        except Exception as e:
+            ctx.note(f"construction raised {type(e).__name__}: {str(e)[:80]} (case skipped)")
+            ctx.count("construction_failed")
+            return
+        outcomes, mops = [], []
+        child_descs = list(h["init"])
+        mchildren = [to_model(c) for c in children]
+        for op in h["ops"]:
+            try:
+                if op["op"] == "hash":
+                    hash(node)
+                elif op["op"] == "dict":
+                    {}[node] = "partial result"
+                elif op["op"] == "set":
+                    {node}
+                elif op["op"] == "parent":
+                    boolean.OrRestriction(node, node_type=node.type)      # instance cached: hashes its arguments
+                elif op["op"] == "add":
+                    new = [build(d) for d in op["rs"]]
+                    mnew = [to_model(c) for c in new]
+                    mops.append({"op": "add", "rs": mnew})
+                    node.add_restriction(*new)
+                    children.extend(new)
+                    mchildren.extend(mnew)
+                    child_descs.extend(op["rs"])
+                else:
+                    node.finalize()
+                outcomes.append(True)
+            except TypeError:
+                outcomes.append(False)
+            except Exception as e:
+                ctx.violation(case, f"{op['op']} on a node under construction raised {type(e).__name__}: {e}")
+                return
+            if op["op"] != "add":
+                mops.append({"op": "finalize" if op["op"] == "finalize" else "hash"})
+            ctx.count("history_op_" + op["op"] + ("_ok" if outcomes[-1] else "_refused"))
+        if list(node.restrictions) != children:
+            ctx.violation(case, f"after the history the node holds {len(node.restrictions)} restrictions, {len(children)} were accepted")
+            return
+        req = {"cmd": "c07.build", "k": h["kind"], "t": {None: 0, "values": 1, "package": 2}[node.type], "n": h["n"],
+               "init": mchildren[: len(h["init"])], "ops": mops}
+        hist_pend.append((case, req, outcomes))
+        # the property: the node is interchangeable with the same tree built in one go
+        kw1 = dict(kw)
+        kw1.pop("finalize")
+        try:
+            same_children = cls(*children, **kw1)
+            rebuilt = cls(*[build(d) for d in child_descs], **kw1)
+        except Exception as e:
+            ctx.violation(case, f"building the same tree in one go raised {type(e).__name__}: {e}")
+            return
+        # hash both first: the `_hash` state of _HashedGenericEquality leaves takes part in their ==
+        for o in (node, same_children, rebuilt):
+            try:
+                hash(o)
+            except TypeError:
+                pass
+        stage_objs(dict(case, against="one-go tree over the same children"), dom, node, same_children)
+        stage_objs(dict(case, against="one-go tree over independently rebuilt children"), dom, node, rebuilt)
+
+    def flush_history():
+        if not hist_pend:
+            return
+        reps = ctx.model([req for _, req, _ in hist_pend])
+        for (case, req, outcomes), rep in zip(hist_pend, reps):
+            ctx.case(case, any(o["op"] == "add" for o in case["history"]["ops"]) and any(o["op"] in ("hash", "dict", "set", "parent")
+                                                                                         for o in case["history"]["ops"]))
+            if not isinstance(rep, dict):
+                ctx.mismatch(case, f"driver answered {rep!r}")
+                continue
+            if rep["oks"] != outcomes:
+                i = [j for j, (x, y) in enumerate(zip(rep["oks"], outcomes)) if x != y][0]
+                op = case["history"]["ops"][i]["op"]
+                ctx.mismatch(case, f"call #{i} ({op}) on the node under construction {'succeeded' if outcomes[i] else 'raised TypeError'}, "
+                                   f"the model says it {'succeeds' if rep['oks'][i] else 'raises TypeError'}")
+            if rep["cachedIsFinal"] is False:
+                ctx.mismatch(case, "model: cached hash differs from the hash of the final children (contradicts builder_hash_history_independent)")
+        hist_pend.clear()
 
     def flush():
         reqs = []
         for case, rec, a, b in pend:
             reqs.append({"cmd": "c07.pair", "a": rec["ma"], "b": rec["mb"]})
-            reqs.append({"cmd": "c07.match", "r": rec["ma"], "vals": UNIV_MODEL[case["dom"]]})
-            reqs.append({"cmd": "c07.match", "r": rec["mb"], "vals": UNIV_MODEL[case["dom"]]})
+            dom = case["dom"] if "dom" in case else case["history"]["dom"]
+            reqs.append({"cmd": "c07.match", "r": rec["ma"], "vals": UNIV_MODEL[dom]})
+            reqs.append({"cmd": "c07.match", "r": rec["mb"], "vals": UNIV_MODEL[dom]})
         reps = ctx.model(reqs)
         for i, (case, rec, a, b) in enumerate(pend):
             judge(case, rec, reps[3 * i], reps[3 * i + 1], reps[3 * i + 2])
         pend.clear()
 
     def judge(case, rec, mp, mma, mmb):
-        dom = case["dom"]
-        nontriv = not rec["same_obj"] and json.dumps(case["a"], sort_keys=True) != json.dumps(case["b"], sort_keys=True)
-        ctx.case(case, nontriv, key=json.dumps([case["dom"], case["a"], case["b"]], sort_keys=True))
+        dom = case["dom"] if "dom" in case else case["history"]["dom"]
+        if "history" in case:
+            nontriv = not rec["same_obj"]
+            ctx.case(case, nontriv, key=json.dumps(case["history"], sort_keys=True))
+        else:
+            nontriv = not rec["same_obj"] and json.dumps(case["a"], sort_keys=True) != json.dumps(case["b"], sort_keys=True)
+            ctx.case(case, nontriv, key=json.dumps([case["dom"], case["a"], case["b"]], sort_keys=True))
         ctx.count("dom_" + dom)
         ctx.count("variant_" + case["variant"])
         ctx.count("class_" + rec["ma"]["c"])
@@ -688,6 +856,9 @@ def run(ctx):
             if not isinstance(mod, list):
                 ctx.mismatch(case, f"driver answered {mod!r} to a match request")
                 continue
+            if any(isinstance(x, str) for x in real):
+                ctx.count("match_raised_on_ill_typed_value")      # e.g. a multi restriction whose child cannot unpack what it pulls
+                continue
             ctx.count("match_model_compared")
             if real != mod:
                 i = [j for j, (x, y) in enumerate(zip(real, mod)) if x != y][0]
@@ -697,12 +868,28 @@ def run(ctx):
         for c in ctx.replay_cases:
             if "a" in c and "b" in c and "dom" in c:
                 stage(c["dom"], c["a"], c["b"], "replay")
+    if ctx.replay_cases:
+        for c in ctx.replay_cases:
+            if "history" in c:
+                stage_history(c["history"], "replay")
+    cat_leaf = {"k": "dep", "cls": "CategoryDep", "s": "a", "n": False}
+    pkg_leaf = {"k": "dep", "cls": "PackageDep", "s": "b", "n": False}
+    slot_leaf = {"k": "dep", "cls": "SlotDep", "s": "0", "n": False}
+    for kind in ("and", "or", "one", "amo", "keyed"):
+        for touch in ([], [{"op": "hash"}], [{"op": "dict"}, {"op": "set"}], [{"op": "parent"}]):
+            for neg in (False, True):
+                stage_history({"dom": "pkg", "kind": kind, "n": neg, "init": [cat_leaf],
+                               "ops": touch + [{"op": "add", "rs": [pkg_leaf]}] + touch + [{"op": "finalize"}, {"op": "hash"}]}, "corpus_history")
+        stage_history({"dom": "pkg", "kind": kind, "n": False, "init": [],
+                       "ops": [{"op": "set"}, {"op": "add", "rs": [cat_leaf, pkg_leaf]}, {"op": "add", "rs": []}, {"op": "finalize"},
+                               {"op": "add", "rs": [slot_leaf]}, {"op": "finalize"}, {"op": "dict"}]}, "corpus_history")
+    flush_history()
     for dom, da, db in CORPUS:
         stage(dom, da, db, "corpus")
         stage(dom, db, da, "corpus")
         stage(dom, da, copy.deepcopy(da), "corpus_rebuild")
     flush()
-    n = ctx.n(2500, 60000)
+    n = ctx.n(1800, 50000)
     for i in range(n):
         dom, da = g_top(rng)
         r = rng.random()
@@ -716,9 +903,12 @@ def run(ctx):
             if dom2 != dom:
                 db, tag = copy.deepcopy(da), "same"
         stage(dom, da, db, tag)
-        if len(pend) >= 300:
+        if i % 6 == 0:
+            stage_history(gen_history(rng), "history")
+        if len(pend) >= 4000:      # each driver start costs ~1 s: batch
             flush()
     flush()
+    flush_history()
 
     # ---------------------------------------------------------------- restriction-keyed caches on the real code
     from pkgcore.repository.misc import caching_repo
